@@ -29,8 +29,23 @@ pub struct Optimizer<F>(core::marker::PhantomData<F>);
 
 impl<F: Field> Optimizer<F> {
     pub fn optimize(ops: Vec<Op<F>>) -> (Vec<Op<F>>, HashMap<WitnessId, WitnessId>) {
+        Self::optimize_with_inputs(ops, &[])
+    }
+
+    /// Like [`Self::optimize`], but told which witnesses are private inputs.
+    ///
+    /// Private inputs are set before execution without any defining op, so an add whose
+    /// `out` is a private input is a backwards (subtraction) encoding and must not be fused.
+    pub fn optimize_with_inputs(
+        ops: Vec<Op<F>>,
+        private_inputs: &[WitnessId],
+    ) -> (Vec<Op<F>>, HashMap<WitnessId, WitnessId>) {
         let (ops, rewrite) = Deduplicator::new().run(ops);
-        let ops = MulAddFusion::new(&ops).run(ops);
+        let inputs: Vec<WitnessId> = private_inputs
+            .iter()
+            .map(|id| id.resolve(&rewrite))
+            .collect();
+        let ops = MulAddFusion::with_inputs(&ops, &inputs).run(ops);
         (ops, rewrite)
     }
 }
